@@ -21,7 +21,7 @@ WORLD_CALLEES = [
     'FileTime :: now', 'std :: time :: SystemTime :: now', 'SystemTime :: now',
     'move_to_back_of_list', 'set_read_only', 'ensure_file_removed', 'ensure_file_touched', 'raw_cache :: ensure_file_touched',
     'collect_cached_files', 'apply_update', 'raw_cache :: prune', 'prune', 'ensure_directory', 'cleanup_temporary_directory',
-    'libc :: close', 'close', '. seek', '. reopen', '. sync_all', '. sync_all_or_panic', '. set_permissions', 'NamedTempFile :: new_in', '. tempfile_in', 'CacheDir :: get', 'CacheDir :: touch', 'CacheDir :: set', 'CacheDir :: put', 'CacheDir :: ensure_temp_dir', 'CacheDir :: maintain', 'CacheDir :: maybe_cleanup', 'CacheDir :: definitely_cleanup', 'CacheDir :: cleanup_temp_directory', 'finalize_tempfile', 'fix_tempfile_permissions', '. finalize_tempfile', '. maybe_sync_path', '. set_impl', '. put_impl', '. ensure_temp_dir', '. cleanup_temp_directory', '. definitely_cleanup', '. maybe_cleanup', '. maintain', '. event', '. weighted_event',
+    'libc :: close', 'close', '. seek', '. rewind', '. reopen', '. sync_all', '. sync_all_or_panic', '. set_permissions', 'NamedTempFile :: new_in', '. tempfile_in', 'CacheDir :: get', 'CacheDir :: touch', 'CacheDir :: set', 'CacheDir :: put', 'CacheDir :: ensure_temp_dir', 'CacheDir :: maintain', 'CacheDir :: maybe_cleanup', 'CacheDir :: definitely_cleanup', 'CacheDir :: cleanup_temp_directory', 'finalize_tempfile', 'fix_tempfile_permissions', '. finalize_tempfile', '. maybe_sync_path', '. set_impl', '. put_impl', '. ensure_temp_dir', '. cleanup_temp_directory', '. definitely_cleanup', '. maybe_cleanup', '. maintain', '. event', '. weighted_event',
 ]
 
 
@@ -157,7 +157,7 @@ pub proof fn lemma_stamped_unread(ino: Inode, t: int, gran: int)
         ensures=[
             INV, BOOK,
             ('C06 C20:at-most-two-filesystem-calls', 'final(w).steps <= old(w).steps + 2 * (2) && final(w).opens == old(w).opens && final(w).published == old(w).published && final(w).now == old(w).now'),
-            ('C03 C19:file-made-read-only',
+            ('C03 C19 C02 C01:file-made-read-only',
              'old(w).solo ==> (r.is_ok() ==> old(w).files.contains_key(pv(path)) && final(w).hard_faults == old(w).hard_faults '
              '&& final(w).only_inode_changed(*old(w), old(w).files[pv(path)], Inode { writable: false, ..old(w).inode_at(pv(path)) }))'),
             ('C18 C05:error-leaves-filesystem-unchanged',
@@ -273,7 +273,7 @@ pub proof fn lemma_stamped_unread(ino: Inode, t: int, gran: int)
              'r.is_ok() && old(w).files.contains_key(pv(to)) ==> old(w).files.contains_key(pv(from)) '
              '&& final(w).files =~= old(w).files.remove(pv(from)) && final(w).dirs == old(w).dirs && final(w).published == old(w).published '
              '&& final(w).hard_faults == old(w).hard_faults'),
-            ('C09 C11:put-on-an-existing-entry-marks-it-as-read-and-leaves-content-and-queue-position-alone',
+            ('C09 C11 C01:put-on-an-existing-entry-marks-it-as-read-and-leaves-content-and-queue-position-alone',
              'source_unaliased(*old(w), pv(from)) ==> (r.is_ok() && old(w).files.contains_key(pv(to)) ==> '
              'final(w).inode_at(pv(to)) == (Inode { atime: final(w).inode_at(pv(to)).atime, ..old(w).inode_at(pv(to)) }) && final(w).accessed(pv(to)) '
              '&& forall|i: InodeId| i != old(w).files[pv(from)] && i != old(w).files[pv(to)] && old(w).inodes.contains_key(i) ==> #[trigger] final(w).inodes[i] == old(w).inodes[i])'),
@@ -864,6 +864,7 @@ pub open spec fn prune_exact(old: World, fin: World, dir: PathV, cap: nat, recs:
              'r.is_ok() && final(w).hard_faults == old(w).hard_faults ==> exists|recs: Seq<CachedFile>, ev: Seq<CachedFile>, mb: Seq<CachedFile>| '
              '#[trigger] prune_exact(*old(w), *final(w), pbv(cache_dir), capacity as nat, recs, ev, mb) && r.unwrap().1 == ev.len() '
              '&& ev.len() == (if recs.len() <= capacity { 0 } else { recs.len() - capacity })'),
+            ('C11 C07:nothing-disappears-without-a-directory-scan', 'final(w).listed == old(w).listed ==> forall|p: PathV| #[trigger] old(w).files.contains_key(p) ==> final(w).files.contains_key(p)'),
             ('C06:linear-in-the-number-of-directory-entries',
              'final(w).steps <= old(w).steps + 2 * (2 + 3 * (final(w).listed - old(w).listed)) && final(w).opens == old(w).opens + 1 && final(w).published == old(w).published'),
             ('C05 C18:error-is-a-missing-directory-or-a-real-fault',
@@ -889,12 +890,12 @@ pub open spec fn prune_exact(old: World, fin: World, dir: PathV, cap: nat, recs:
                      '            lemma_done_rebase(*old(w), wc, fin, ev, mb);\n'
                      '        }\n'
                      '    }\n    ')
-    pr.insert_before('Ok ( ( count - ( num_evicted as u64 ) , num_evicted ) )',
+    pr.insert_before('Ok ( (',
                      'proof {\n'
                      '        if w.hard_faults == old(w).hard_faults {\n'
                      '            assert(prune_exact(*old(w), *w, dir, capacity as nat, recs, ev, mb));\n'
                      '        }\n'
-                     '    }\n    ')
+                     '    }\n    ', nth=-1)
     u.text('}\n')
 
 
@@ -1239,6 +1240,7 @@ pub open spec fn write_frame(old: World, fin: World, base: PathV, name: Seq<u8>,
         ('', '0 <= c <= l_all.len() && listing_of(l_all, wl, tdir) && wl.files == old(w).files && wl.inodes == old(w).inodes'),
         ('C02:every-listed-stale-temporary-file-seen-so-far-is-gone-unless-a-call-failed', 'w.hard_faults == old(w).hard_faults ==> temp_done(l_all, c, *w, tdir, reading)'),
         ('C06:three-calls-per-directory-item', 'w.steps <= old(w).steps + 2 * (2 + 3 * (w.listed - old(w).listed)) && w.opens == old(w).opens + 1 && w.published == old(w).published'),
+        ('C11 C07:nothing-disappears-without-a-directory-scan', 'w.listed == old(w).listed ==> w.files == old(w).files'),
     ], ensures=[('', 'w.hard_faults == old(w).hard_faults ==> c == l_all.len()')], invariant_except_break=[('', 'kw_it.rem() == l_all.skip(c) && hf == w.hard_faults'), ('C06:three-calls-per-directory-item', 'w.steps <= old(w).steps + 2 * (1 + 3 * (w.listed - old(w).listed))')],
         decreases='kw_it.rem().len()')
     cl.contract(
@@ -1249,6 +1251,7 @@ pub open spec fn write_frame(old: World, fin: World, base: PathV, name: Seq<u8>,
             ('C17 C02:only-stale-temporary-files-are-removed', 'temp_frame(*old(w), *final(w), cowv(temp_dir), final(w).now)'),
             ('C02:debris-older-than-the-age-limit-is-removed-when-no-call-fails',
              'r.is_ok() && final(w).hard_faults == old(w).hard_faults && old(w).dirs.contains(cowv(temp_dir)) && final(w).now >= temp_age_ns() ==> no_stale_temp(*final(w), cowv(temp_dir), final(w).now)'),
+            ('C11 C07:nothing-disappears-without-a-directory-scan', 'final(w).listed == old(w).listed ==> forall|p: PathV| #[trigger] old(w).files.contains_key(p) ==> final(w).files.contains_key(p)'),
             ('C06:three-calls-per-directory-item', 'final(w).steps <= old(w).steps + 2 * (2 + 3 * (final(w).listed - old(w).listed)) && final(w).opens <= old(w).opens + 1 && final(w).published == old(w).published'),
             ('C05 C18:error-is-a-real-fault', 'r.is_err() ==> final(w).hard_faults > old(w).hard_faults'),
         ])
@@ -1362,6 +1365,7 @@ pub open spec fn write_frame(old: World, fin: World, base: PathV, name: Seq<u8>,
                  ('C17 C02:only-stale-temporary-files-are-removed', 'temp_frame(*old(w), *final(w), self.spec_temp(), final(w).now)'),
                  ('C02:debris-older-than-the-age-limit-is-removed-when-no-call-fails',
                   'r.is_ok() && final(w).hard_faults == old(w).hard_faults && old(w).dirs.contains(self.spec_temp()) && final(w).now >= temp_age_ns() ==> no_stale_temp(*final(w), self.spec_temp(), final(w).now)'),
+                 ('C11 C07:nothing-disappears-without-a-directory-scan', 'final(w).listed == old(w).listed ==> forall|p: PathV| #[trigger] old(w).files.contains_key(p) ==> final(w).files.contains_key(p)'),
                  ('C06:three-calls-per-directory-item', 'final(w).steps <= old(w).steps + 2 * (2 + 3 * (final(w).listed - old(w).listed)) && final(w).opens <= old(w).opens + 1 && final(w).published == old(w).published'),
                  ('C05 C18:error-is-a-real-fault', 'r.is_err() ==> final(w).hard_faults > old(w).hard_faults')])
     ct.body_start('proof { lemma_child(self.spec_base(), temp_name()); }')
@@ -1384,6 +1388,7 @@ pub open spec fn write_frame(old: World, fin: World, base: PathV, name: Seq<u8>,
                   '#[trigger] raw_cache::prune_exact(*old(w), m, self.spec_base(), self.spec_capacity() as nat, recs, ev, mb) '
                   '&& ev.len() == (if recs.len() <= self.spec_capacity() { 0 } else { recs.len() - self.spec_capacity() }) '
                   '&& temp_frame(m, *final(w), self.spec_temp(), final(w).now)'),
+                 ('C11 C07:nothing-disappears-without-a-directory-scan', 'final(w).listed == old(w).listed ==> forall|p: PathV| #[trigger] old(w).files.contains_key(p) ==> final(w).files.contains_key(p)'),
                  ('C06:linear-in-the-number-of-directory-entries', 'final(w).steps <= old(w).steps + 2 * (4 + 3 * (final(w).listed - old(w).listed)) && final(w).opens <= old(w).opens + 2'),
                  ('C05 C18:error-is-a-real-fault', 'r.is_err() ==> final(w).hard_faults > old(w).hard_faults')])
     dc.insert_before('self . cleanup_temp_directory ( ) ? ;',
@@ -1406,6 +1411,7 @@ pub open spec fn write_frame(old: World, fin: World, base: PathV, name: Seq<u8>,
                  ('C20 C06 C10:no-filesystem-call-unless-the-trigger-fires',
                   'r == Ok::<Option<u64>, Error>(None) ==> *final(w) == (World { counter: final(w).counter, ..*old(w) })'),
                  ('C17 C07 C02 C16:maintenance-deletes-only-evictable-entries-and-stale-temporary-files', 'cleanup_frame(*old(w), *final(w), self.spec_base())'),
+                 ('C11 C07:nothing-disappears-without-a-directory-scan', 'final(w).listed == old(w).listed ==> forall|p: PathV| #[trigger] old(w).files.contains_key(p) ==> final(w).files.contains_key(p)'),
                  ('C06:linear-in-the-number-of-directory-entries', 'final(w).steps <= old(w).steps + 2 * (4 + 3 * (final(w).listed - old(w).listed)) && final(w).opens <= old(w).opens + 2'),
                  ('C05 C18:error-is-a-real-fault', 'r.is_err() ==> final(w).hard_faults > old(w).hard_faults')])
     mc.body_start('proof { lemma_cleanup_frame_same(*old(w), self.spec_base()); }')
@@ -1427,6 +1433,7 @@ pub open spec fn write_frame(old: World, fin: World, base: PathV, name: Seq<u8>,
                   '#[trigger] raw_cache::prune_exact(*old(w), m, self.spec_base(), self.spec_capacity() as nat, recs, ev, mb) '
                   '&& ev.len() == (if recs.len() <= self.spec_capacity() { 0 } else { recs.len() - self.spec_capacity() }) '
                   '&& temp_frame(m, *final(w), self.spec_temp(), final(w).now)'),
+                 ('C11 C07:nothing-disappears-without-a-directory-scan', 'final(w).listed == old(w).listed ==> forall|p: PathV| #[trigger] old(w).files.contains_key(p) ==> final(w).files.contains_key(p)'),
                  ('C06:linear-in-the-number-of-directory-entries', 'final(w).steps <= old(w).steps + 2 * (4 + 3 * (final(w).listed - old(w).listed)) && final(w).opens <= old(w).opens + 2'),
                  ('C05 C18:error-is-a-real-fault', 'r.is_err() ==> final(w).hard_faults > old(w).hard_faults')])
 
@@ -1464,6 +1471,8 @@ pub open spec fn write_frame(old: World, fin: World, base: PathV, name: Seq<u8>,
                 ('C13 C11 C18:success-means-a-publication-happened' + ('' if opname == 'set' else '-unless-the-key-was-already-bound'),
                  'r.is_ok() ==> final(w).published > old(w).published' + ('' if opname == 'set' else ' || old(w).files.contains_key(%s)' % DST)),
                 ('C18 C05:without-a-real-fault-a-failed-write-published-nothing', 'r.is_err() && final(w).hard_faults == old(w).hard_faults ==> final(w).published == old(w).published'),
+                ] + ([] if opname == 'set' else [('C11 C04:put-never-overwrites-an-existing-entry',
+                                                 'r.is_ok() && final(w).hard_faults == old(w).hard_faults && final(w).listed == old(w).listed && old(w).files.contains_key(%s) ==> final(w).published == old(w).published' % DST)]) + [
                 ('C01 C03 C19:a-write-never-changes-the-bytes-of-any-file',
                  'bytes_kept(*old(w), *final(w))'),
                 ('C11 C04 C09 C10:exact-effect-when-nothing-failed',
